@@ -3,7 +3,6 @@
 package zz_verif
 
 import (
-	"encoding/base64"
 	ipfslog "berty.tech/go-ipfs-log"
 	"berty.tech/go-ipfs-log/enc"
 	"berty.tech/go-ipfs-log/entry"
@@ -13,6 +12,7 @@ import (
 	"berty.tech/go-ipfs-log/internal/vx"
 	"berty.tech/go-ipfs-log/io/cbor"
 	"berty.tech/go-ipfs-log/io/jsonable"
+	"encoding/base64"
 	"github.com/ipfs/go-cid"
 	"github.com/ipfs/go-ipld-cbor/encoding"
 	"github.com/polydawn/refmt/obj/atlas"
